@@ -423,14 +423,11 @@ func c09R3R4(a *A, cd *codec) {
 				"bytes, presence bitmap and NULL bitmap all belong to the "+rl.Family+" image", fmt.Sprintf("image families are mixed: bytes=%s presence=%s null=%s", dataField, rl.Family, nullFam))
 		}
 	}
-	// R4: NULL-bitmap width in Rows = BitCount of the same family's presence bitmap
+	// R4: NULL-bitmap width in Rows = BitCount of the same family's presence bitmap. The construction may sit in Rows or in a
+	// helper Rows calls, which then hands the bitmap back (the destination and the count are resolved through the call site).
 	rows := w.method(w.Repl, "binlogEvent", "Rows")
 	n := 0
-	instrs(rows, func(in ssa.Instruction) {
-		c, ok := in.(*ssa.Call)
-		if !ok || c.Common().StaticCallee() == nil || c.Common().StaticCallee().Name() != "newBitmap" {
-			return
-		}
+	nullWidth := func(c *ssa.Call, site *ssa.Call) {
 		// where does result 0 go?
 		dest := ""
 		for _, ref := range *c.Referrers() {
@@ -439,6 +436,10 @@ func c09R3R4(a *A, cd *codec) {
 					if st, ok := rr.(*ssa.Store); ok {
 						if fa, ok := st.Addr.(*ssa.FieldAddr); ok {
 							dest = fieldName(fa)
+						} else if site != nil {
+							if d := returnedLocalDest(st.Addr, site); d != "?" {
+								dest = d
+							}
 						}
 					}
 				}
@@ -449,10 +450,35 @@ func c09R3R4(a *A, cd *codec) {
 		}
 		n++
 		cnt := c.Common().Args[2]
+		if p, isP := cnt.(*ssa.Parameter); isP && site != nil {
+			for i, q := range site.Common().StaticCallee().Params {
+				if q == p && i < len(site.Common().Args) {
+					cnt = site.Common().Args[i]
+				}
+			}
+		}
 		// the count must be (a phi/variable holding) BitCount() of the same family's presence bitmap
 		src := bitCountSource(cnt, map[ssa.Value]bool{})
 		a.check(src != "" && familyOf(src) == familyOf(dest), "C09-R4", "null-width@Rows["+dest+"]", w.posOf(c), "NULL bitmap sized by BitCount() of "+src,
 			fmt.Sprintf("the %s bitmap is sized by %q instead of the number of present columns of the same image: every row after the first is cut at the wrong place", dest, src))
+	}
+	instrs(rows, func(in ssa.Instruction) {
+		c, ok := in.(*ssa.Call)
+		if !ok || c.Common().StaticCallee() == nil {
+			return
+		}
+		cal := c.Common().StaticCallee()
+		if cal.Name() == "newBitmap" {
+			nullWidth(c, nil)
+			return
+		}
+		if cal.Pkg == w.Repl && cal.Blocks != nil && !c.Common().IsInvoke() && cal != rows {
+			instrs(cal, func(i2 ssa.Instruction) {
+				if c2, ok := i2.(*ssa.Call); ok && c2.Common().StaticCallee() != nil && c2.Common().StaticCallee().Name() == "newBitmap" {
+					nullWidth(c2, c)
+				}
+			})
+		}
 	})
 	if n < 2 {
 		a.undecided("C09-R4", "null-width@Rows", w.pos(rows.Pos()), "found %d NULL-bitmap constructions in Rows, expected 2", n)
